@@ -341,14 +341,29 @@ def conservation_validator(prog: Program, rep, RID: str):
     # 3. decisive comparison
     dec = [s for s in lp.body if isinstance(s, ast.If) and isinstance(s.test, ast.Compare) and len(s.test.ops) == 1 and
            {norm(s.test.left), norm(s.test.comparators[0])} == {a, b}]
-    if len(dec) != 1:
+    # reviewed alternative: `not math.isclose(a, b, rel_tol=r, abs_tol=t)` with tolerances <= 1e-6 (float flows that conserve flow as decimal
+    # numbers differ in the last binary digits; with == they are rejected as non-conserving)
+    close = [s for s in lp.body if isinstance(s, ast.If) and isinstance(s.test, ast.UnaryOp) and isinstance(s.test.op, ast.Not) and
+             isinstance(s.test.operand, ast.Call) and dotted(s.test.operand.func) in ("math.isclose", "isclose") and len(s.test.operand.args) == 2 and
+             {norm(x) for x in s.test.operand.args} == {a, b}]
+    if len(dec) != 1 and len(close) == 1:
+        tols = [k.value.value for k in close[0].test.operand.keywords if isinstance(k.value, ast.Constant) and isinstance(k.value.value, (int, float))]
+        rets_c = [n for n in close[0].body if isinstance(n, ast.Return)]
+        if len(tols) == len(close[0].test.operand.keywords) and all(0 <= t_ <= 1e-6 for t_ in tols) and rets_c and \
+                isinstance(rets_c[0].value, ast.Constant) and rets_c[0].value.value is False:
+            rep.ok(RID, key + ":verdict", f"a node whose in- and out-sums are not close (`{norm(close[0].test)}`) makes the validator return False", f.loc(close[0]))
+        else:
+            rep.violation(RID, key + ":verdict", f"the conservation verdict `{norm(close[0].test)}` uses a tolerance above 1e-6 or does not return False: non-conserving "
+                          "flows are accepted", f.loc(close[0]))
+    elif len(dec) != 1:
         raise AnalysisError("check_flow_conservation: comparison of the two sums not recognised (a tolerance would change which inputs are rejected - review)")
-    d = dec[0]
-    rets = [r for r in d.body if isinstance(r, ast.Return)]
-    if isinstance(d.test.ops[0], ast.NotEq) and rets and isinstance(rets[0].value, ast.Constant) and rets[0].value.value is False:
-        rep.ok(RID, key + ":decision", f"`{norm(d.test)}` -> return False", f.loc(d))
     else:
-        rep.violation(RID, key + ":decision", f"`if {norm(d.test)}: {norm(d.body[0])[:40]}` does not answer False on every difference of inflow and outflow", f.loc(d))
+        d = dec[0]
+        rets = [r for r in d.body if isinstance(r, ast.Return)]
+        if isinstance(d.test.ops[0], ast.NotEq) and rets and isinstance(rets[0].value, ast.Constant) and rets[0].value.value is False:
+            rep.ok(RID, key + ":decision", f"`{norm(d.test)}` -> return False", f.loc(d))
+        else:
+            rep.violation(RID, key + ":decision", f"`if {norm(d.test)}: {norm(d.body[0])[:40]}` does not answer False on every difference of inflow and outflow", f.loc(d))
     # 4. True only after the whole loop
     trues = [r for r in ast.walk(f.node) if isinstance(r, ast.Return) and isinstance(r.value, ast.Constant) and r.value.value is True]
     last = f.node.body[-1]
@@ -361,6 +376,115 @@ def conservation_validator(prog: Program, rep, RID: str):
 def enclosing_tests_in(root, node):
     from rules.semantic import enclosing_tests
     return enclosing_tests(root, node)
+
+
+def nan_proof_ranges(prog, rep, RID):
+    """A range check written as `x <= 0 or x > 1` is False for NaN (every comparison with NaN is False), so NaN passes as if it
+    were in range; `not (0 < x <= 1)` rejects it.  Evaluated abstractly: with every ordering comparison False the raising
+    condition must be True."""
+    import ast
+    from sa.pm import norm, dotted, AnalysisError
+    n = 0
+    WHAT = re.compile(r"coverage|percentile|^value$|epsilon")
+
+    def nan_eval(t):
+        if isinstance(t, ast.BoolOp):
+            vals = [nan_eval(v) for v in t.values]
+            if any(v is None for v in vals):
+                return None
+            return all(vals) if isinstance(t.op, ast.And) else any(vals)
+        if isinstance(t, ast.UnaryOp) and isinstance(t.op, ast.Not):
+            v = nan_eval(t.operand)
+            return None if v is None else (not v)
+        if isinstance(t, ast.Compare) and all(isinstance(o, (ast.Lt, ast.LtE, ast.Gt, ast.GtE)) for o in t.ops):
+            return False
+        return None
+    for cls in prog.all_classes():
+        init = cls.methods.get("__init__")
+        if init is None:
+            continue
+        for st in ast.walk(init.node):
+            if not (isinstance(st, ast.If) and any(isinstance(b, ast.Raise) for b in st.body)):
+                continue
+            names = {norm(x) for c in ast.walk(st.test) if isinstance(c, ast.Compare) for x in [c.left] + list(c.comparators)
+                     if isinstance(x, (ast.Name, ast.Attribute))}
+            if not any(WHAT.search(nm.split(".")[-1]) for nm in names):
+                continue
+            consts = [x.value for c in ast.walk(st.test) if isinstance(c, ast.Compare) for x in [c.left] + list(c.comparators)
+                      if isinstance(x, ast.Constant) and isinstance(x.value, (int, float))]
+            if not consts:
+                continue
+            v = nan_eval(st.test)
+            if v is None:
+                continue        # not a pure range check (None tests, membership, ...): other rules
+            # a later test on a value whose NaN-proof range check precedes it in the constructor never sees NaN
+            if not v and any(isinstance(o, ast.If) and any(isinstance(b, ast.Raise) for b in o.body) and o.lineno < st.lineno and nan_eval(o.test) is True and
+                             names & {norm(x) for c in ast.walk(o.test) if isinstance(c, ast.Compare) for x in [c.left] + list(c.comparators)
+                                      if isinstance(x, (ast.Name, ast.Attribute))} for o in ast.walk(init.node)):
+                continue
+            n += 1
+            key = f"{cls.name}.__init__:nan-proof[{norm(st.test)[:50]}]"
+            if v:
+                rep.ok(RID, key, "the range check raises also for NaN", init.loc(st))
+            else:
+                rep.violation(RID, key, f"`{norm(st.test)}` is False for NaN (every comparison with NaN is False): a NaN value passes the range check and enters the "
+                              "model (threshold / objective coefficient nan)", init.loc(st))
+    if n < 6:
+        raise AnalysisError(f"range checks of coverage / scaling / percentile parameters: only {n} found")
+    return n
+
+
+def greedy_padding_guard(prog, rep, RID):
+    """The greedy decomposition of an all-zero (valid, non-negative) flow has no path: `paths[0]` used for padding must be
+    preceded by a test that leaves the greedy route when there is no path."""
+    import ast
+    from sa.pm import norm, walk_no_nested, AnalysisError
+    f = prog.own_method("kFlowDecomp", "_get_solution_with_greedy")
+    subs = [n for n in ast.walk(f.node) if isinstance(n, ast.Subscript) and isinstance(n.value, ast.Name) and isinstance(n.slice, ast.Constant) and n.slice.value == 0]
+    key = "kFlowDecomp._get_solution_with_greedy:padding-needs-a-path"
+    if not subs:
+        rep.ok(RID, key, "no first-element access on the greedy paths", f.loc())
+        return
+    nm = subs[0].value.id
+    guard = None
+    for st in walk_no_nested(f.node):
+        if isinstance(st, ast.If) and st.lineno < subs[0].lineno and any(isinstance(b, ast.Return) for b in st.body):
+            t = norm(st.test).replace(" ", "")
+            if t in (f"len({nm})==0", f"not{nm}", f"0==len({nm})", f"len({nm})<1"):
+                guard = st
+    if guard is not None:
+        rep.ok(RID, key, f"`{norm(guard.test)}` leaves the greedy route before `{nm}[0]` is read", f.loc(guard))
+    else:
+        rep.violation(RID, key, f"`{nm}[0]` is read to pad the decomposition up to k although the greedy decomposition of an all-zero flow is empty: "
+                      "kFlowDecomp(G, k=1) and MinFlowDecomp raise IndexError for s->a 0, a->t 0, which the MILP route solves with a path of weight 0", f.loc(subs[0]))
+
+
+def node_mode_constraint_shapes(prog, rep, RID):
+    """In node-weighted mode the constraints are translated by NodeExpandedDiGraph before any model class validates them: the
+    translator itself has to reject an empty constraint and constraints whose elements are not all nodes or all 2-tuples."""
+    import ast
+    from sa.pm import norm, AnalysisError
+    f = prog.own_method("NodeExpandedDiGraph", "get_expanded_subpath_constraints")
+    first = [n for n in ast.walk(f.node) if isinstance(n, ast.Subscript) and norm(n).endswith("[0][0]")]
+    key = "NodeExpandedDiGraph.get_expanded_subpath_constraints"
+    if not first:
+        raise AnalysisError("get_expanded_subpath_constraints: the dispatch on the first element was not found")
+    line = min(n.lineno for n in first)
+    raises = [st for st in ast.walk(f.node) if isinstance(st, ast.If) and any(isinstance(b, ast.Raise) for b in st.body) and st.lineno < line]
+    empties = [st for st in raises if re.search(r"len\(\w+\) == 0 for|not \w+ for|len\(\w+\) < 1 for", norm(st.test))]
+    if empties:
+        rep.ok(RID, key + ":empty", "an empty constraint is rejected before the first element is read", f.loc(empties[0]))
+    else:
+        rep.violation(RID, key + ":empty", "`subpath_constraints[0][0]` is read without a test that every constraint is non-empty: [[]] raises IndexError instead "
+                      "of ValueError", f.loc(first[0]))
+    # all elements typed
+    whole = [st for st in ast.walk(f.node) if isinstance(st, (ast.Assign, ast.If)) and st.lineno < line and
+             re.search(r"isinstance\(\w+, (str|tuple)\).* for \w+ in \w+ for \w+ in \w+", norm(st))]
+    if len(whole) >= 2 or any("str" in norm(w) and "tuple" in norm(w) for w in whole):
+        rep.ok(RID, key + ":all-elements", "every element of every constraint is type-checked (all nodes or all 2-tuples) before the translation", f.loc(whole[0]))
+    else:
+        rep.violation(RID, key + ":all-elements", "only the first element of the first constraint decides between the node and the edge translation, and the other elements "
+                      "are never type-checked: [[('s','a')], ['ab']] is translated as the edge (a, b), the model is built and reports solved", f.loc(first[0]))
 
 
 def synthetic_endpoint_queries(prog, rep, RID):
@@ -416,4 +540,12 @@ def check(prog: Program, rep):
     rep.rule("C19.R5", "the 'no source / no sink' validation reads real edges: construction-time edge queries keyed by the synthetic source / sink are "
              "guarded by node membership (networkx takes a non-node string for a container of nodes)", floor=2)
     synthetic_endpoint_queries(prog, rep, "C19.R5")
+    rep.rule("C19.R6", "range checks reject NaN; the greedy route is left for an empty decomposition; node-mode constraints are shape-checked by the translator", floor=9)
+    nan_proof_ranges(prog, rep, "C19.R6")
+    greedy_padding_guard(prog, rep, "C19.R6")
+    node_mode_constraint_shapes(prog, rep, "C19.R6")
+    from rules.values import data_rhs_converted
+    from rules.common import RuleProxy
+    data_rhs_converted(prog, RuleProxy(rep, "C19.R6"), "C02.R11", {"kFlowDecomp": ["_encode_flow_decomposition", "_encode_flow_decomposition_with_given_weights"],
+                                                                   "kFlowDecompCycles": ["_encode_flow_decomposition"], "MinGenSet": ["_create_solver", "_encode_partition_constraints"]})
 
